@@ -20,6 +20,8 @@ def gen(rng, tier):
             kc = "k<B" if kl < b else ("k=B" if kl == b else "k>B")
             k = sec(kl); m = sec(rng.choice([0, 9, 70, 130]))
             plan.append(("hmac", [t, hexs(k), hexs(m)], [k], "ok", "%s %s" % (t, kc)))
+            # documented exception exit after the key schedule has run (message length overflow): the hashed long key and the pads must still be wiped
+            plan.append(("hmac_ovf", [t, hexs(k), "E=throw:overflow_error"], [k], "throw", "%s %s msg-length-overflow" % (t, kc)))
             plan.append(("hmac_securekey", [t, hexs(k), hexs(m)], [k], "ok", "%s %s" % (t, kc)))
             plan.append(("hmac_veckey", [t, hexs(k), hexs(m)], [], "ok", "%s %s" % (t, kc)))
             plan.append(("hmacctx", [t, hexs(k), hexs(m)], [k], "ok", "%s %s" % (t, kc)))
